@@ -35,6 +35,10 @@ def gen_antenna(rng, families=None, max_pulses=25, ground=None, len_jitter=(0.7,
     """returns dict(f, ground, wires=[dict(nseg,p0,p1,r)], family)"""
     fams = families or ['dipole', 'vee', 'ell', 'tee', 'star', 'monopole', 'monopole_top', 'array', 'gp', 'loop', 'monopole_taper', 'varray']
     fam = rng.choice(fams)
+    # 'monopole_end2': a clearly sloped monopole whose *second* end is on the ground (reported as family 'monopole')
+    end2 = fam == 'monopole_end2'
+    if end2:
+        fam = 'monopole'
     if ground is None:
         ground = fam in ('monopole', 'monopole_top', 'gp', 'monopole_taper') or (fam in ('dipole', 'vee', 'array') and rng.random() < 0.25)
     if fam in ('monopole', 'monopole_top', 'gp', 'monopole_taper', 'stub_top', 'close_grounded'):
@@ -89,8 +93,10 @@ def gen_antenna(rng, families=None, max_pulses=25, ground=None, len_jitter=(0.7,
         x, y = rng.uniform(-1, 1) * lam, rng.uniform(-1, 1) * lam
         # from vertical down to an elevation of about 35 degrees (the rules ask for 20 degrees or more)
         tilt = rng.uniform(0, 0.3) if rng.random() < 0.5 else rng.uniform(0.3, 1.4)
+        if end2:
+            tilt = rng.uniform(0.4, 1.2)
         top = np.array([x + tilt * seg * n, y, seg * n])
-        if rng.random() < 0.5:
+        if rng.random() < 0.5 and not end2:
             W([x, y, 0.0], top, n)
         else:
             W(top, [x, y, 0.0], n)
@@ -237,13 +243,17 @@ def gen_antenna(rng, families=None, max_pulses=25, ground=None, len_jitter=(0.7,
     return ant
 
 
-def gen_curved(rng):
+CURVED_KINDS = ['arc', 'helix', 'taper', 'taper-bent', 'arc-axial']
+
+
+def gen_curved(rng, kind=None):
     """antennas with arcs, helices and tapered wires (free space)"""
     f = 10 ** rng.uniform(0.5, 2.0)
     lam = C / f
     seg = lam / rng.uniform(15, 40)
     rad = seg / rng.uniform(12, 60)
-    kind = rng.choice(['arc', 'helix', 'taper', 'taper-bent', 'arc-axial'])
+    kind0 = rng.choice(CURVED_KINDS)
+    kind = kind or kind0
     objs = []
     if kind == 'arc':
         n = rng.randint(4, 9)
